@@ -86,6 +86,14 @@ def _render(s, form, ind, inners):
     if k == "tryf":
         return ([pad + "try:"] + _render(s[1], form, ind + 1, inners) +
                 [pad + "finally:"] + _render(s[2], form, ind + 1, inners))
+    if k == "vset":
+        return [pad + "V.set(%d)" % s[1]]
+    if k == "vget":
+        return [pad + "R()"]
+    if k == "withv":
+        tok = "tok_%d" % ind           # unique along the nesting; siblings may reuse it (the old token is spent)
+        return ([pad + "%s = V.set(%d)" % (tok, s[1]), pad + "try:"] + _render(s[2], form, ind + 1, inners) +
+                [pad + "finally:", pad + "    V.reset(%s)" % tok])
     raise ValueError(s)
 
 
@@ -135,6 +143,12 @@ def stmt_coq(s):
         return "(STryExcept %s %s %s)" % (stmt_coq(s[1]), PAT[s[2]], stmt_coq(s[3]))
     if k == "tryf":
         return "(STryFinally %s %s)" % (stmt_coq(s[1]), stmt_coq(s[2]))
+    if k == "vset":
+        return "(SVarSet %d)" % s[1]
+    if k == "vget":
+        return "SVarGet"
+    if k == "withv":
+        return "(SWithVar %d %s)" % (s[1], stmt_coq(s[2]))
     raise ValueError(s)
 
 
@@ -171,7 +185,16 @@ def _futs_of(s, acc):
         _futs_of(s[1], acc), _futs_of(s[3], acc)
     elif k == "tryf":
         _futs_of(s[1], acc), _futs_of(s[2], acc)
+    elif k == "withv":
+        _futs_of(s[2], acc)
     return acc
+
+
+def has_var_write(s):
+    return s[0] in ("vset", "withv") or any(has_var_write(x) for x in s[1:] if isinstance(x, list) and x and x[0] in STMT_TAGS)
+
+
+STMT_TAGS = ("skip", "mark", "yield", "call", "ret", "raise", "seq", "tryx", "tryf", "vset", "vget", "withv")
 
 
 def _canon(v):
@@ -222,19 +245,24 @@ def run_form(case, form):
     trace = []
     ctx_ok = [True]
     token = object()
+    check_ctx = not has_var_write(prog)     # bodies that do not write V must see the caller's value everywhere
+
+    def R():
+        v = CTX.get()
+        trace.append([G.Tag("var"), G.Tag("caller") if v is token else v if isinstance(v, int) else G.Tag("unexpected-" + type(v).__name__)])
 
     def T(n):
-        if CTX.get() is not token:
+        if check_ctx and CTX.get() is not token:
             ctx_ok[0] = False
         trace.append(n)
 
     def Gf(r):
-        if CTX.get() is not token:
+        if check_ctx and CTX.get() is not token:
             ctx_ok[0] = False
         trace.append([G.Tag("got"), _canon(r)])
 
     def C(e):
-        if CTX.get() is not token:
+        if check_ctx and CTX.get() is not token:
             ctx_ok[0] = False
         trace.append([G.Tag("caught"), _exc_tag(e)])
 
@@ -252,7 +280,7 @@ def run_form(case, form):
         F = [loop.create_future() for _ in range(nf)]
         for i, f in case["pre"]:
             _complete(F[i], f)
-        ns = {"F": F, "T": T, "G": Gf, "C": C, "gen": gen, "asyncio": asyncio}
+        ns = {"F": F, "T": T, "G": Gf, "C": C, "R": R, "V": CTX, "gen": gen, "asyncio": asyncio}
         exec(code, ns)
         raised = None
         fut = None
@@ -369,29 +397,35 @@ def rand_yexp(rng, nf):
     return ["none"]
 
 
-def rand_stmt(rng, nf, depth, marks, allow_raise_cancel=False):
+def rand_stmt(rng, nf, depth, marks, allow_raise_cancel=False, nested=False):
+    rec = lambda: rand_stmt(rng, nf, depth - 1, marks, allow_raise_cancel, nested)   # noqa: E731
     r = rng.random()
     if depth <= 0 or r < 0.30:
         q = rng.random()
-        if q < 0.55:
+        if q < 0.45:
             return ["yield", rand_yexp(rng, nf)]
-        if q < 0.75:
+        if q < 0.60:
             marks[0] += 1
             return ["mark", marks[0]]
-        if q < 0.85:
+        if q < 0.70:
             return ["raise", rng.choice(["K", "V", "C"] if allow_raise_cancel else ["K", "V"])]
-        if q < 0.93:
+        if q < 0.77:
             return ["ret", rng.choice([0, 5, 9])]
+        if q < 0.89:
+            return ["vget"]
+        if q < 0.97 and not nested:       # an unbalanced V.set() inside a nested coroutine is outside the grammar (NOTES)
+            return ["vset", rng.choice([1, 2, 3])]
         return ["skip"]
-    if r < 0.55:
-        return ["seq", rand_stmt(rng, nf, depth - 1, marks, allow_raise_cancel), rand_stmt(rng, nf, depth - 1, marks, allow_raise_cancel)]
-    if r < 0.72:
-        return ["tryx", rand_stmt(rng, nf, depth - 1, marks, allow_raise_cancel), rng.choice(["K", "V", "C", "E", "E", "B", "B"]),
-                rand_stmt(rng, nf, depth - 1, marks, allow_raise_cancel)]
-    if r < 0.87:
-        return ["tryf", rand_stmt(rng, nf, depth - 1, marks, allow_raise_cancel), rand_stmt(rng, nf, depth - 1, marks, allow_raise_cancel)]
+    if r < 0.52:
+        return ["seq", rec(), rec()]
+    if r < 0.67:
+        return ["tryx", rec(), rng.choice(["K", "V", "C", "E", "E", "B", "B"]), rec()]
+    if r < 0.80:
+        return ["tryf", rec(), rec()]
+    if r < 0.88:
+        return ["withv", rng.choice([4, 5, 6]), rec()]
     # a nested native coroutine may raise CancelledError itself: its task ends cancelled
-    return ["call", rand_stmt(rng, nf, depth - 1, marks, True)]
+    return ["call", rand_stmt(rng, nf, depth - 1, marks, True, True)]
 
 
 def first_is_yield(s):
@@ -416,6 +450,8 @@ def has_outer_raise_cancel(s):
         return has_outer_raise_cancel(s[1]) or has_outer_raise_cancel(s[3])
     if k == "tryf":
         return has_outer_raise_cancel(s[1]) or has_outer_raise_cancel(s[2])
+    if k == "withv":
+        return has_outer_raise_cancel(s[2])
     return False
 
 
@@ -472,6 +508,10 @@ def corpus_cases():
     out.append(mk(seq(["mark", 1], ["ret", 5]), [], [], force_gen=True))
     out.append(mk(["raise", "K"], [], []))
     out.append(mk(["yield", ["list", []]], [], []))
+    # seeded change C37_3: V.set after a resume from a pending future, then a moment; token reset across a pending yield
+    out.append(mk(seq(["vget"], ["yield", ["fut", 0]], ["vget"], ["vset", 2], ["vget"], ["yield", ["none"]], ["vget"]),
+                  [], [["tick"], ["done", 0, ["res", 7]], ["tick"], ["tick"]], force_gen=True))
+    out.append(mk(seq(["withv", 1, seq(["yield", ["fut", 0]], ["vget"])], ["vget"]), [], [["done", 0, ["res", 7]]], force_gen=True))
     out.append(mk(["yield", ["dict", [0, 0, 1]]], [[1, ["res", 3]]], [["done", 0, ["res", 4]]]))
     out.append(mk(["tryf", ["yield", ["fut", 0]], ["seq", ["yield", ["none"]], ["ret", 9]]], [], [["done", 0, ["exc", "V"]]]))
     return out
@@ -479,7 +519,8 @@ def corpus_cases():
 
 ATOMS = [["yield", ["fut", 0]], ["yield", ["fut", 1]], ["yield", ["list", [0, 1]]], ["yield", ["dict", [1, 0]]],
          ["yield", ["list", [0, 0]]], ["yield", ["moment"]], ["call", ["yield", ["fut", 0]]],
-         ["call", seq(["yield", ["fut", 1]], ["raise", "C"])], ["mark", 1], ["raise", "V"], ["ret", 5]]
+         ["call", seq(["yield", ["fut", 1]], ["raise", "C"])], ["mark", 1], ["raise", "V"], ["ret", 5],
+         ["vset", 2], ["withv", 4, ["vget"]]]
 WRAPS = [lambda a, b: ["seq", a, b],
          lambda a, b: ["tryx", a, "E", b],
          lambda a, b: ["tryx", a, "B", b],
@@ -535,6 +576,19 @@ def family_cases(rng):
             out.append(mk(cx(["yield", ["fut", 0]]), [other], [["tick"], ["done", 0, f], ["tick"]], force_gen=True))
             out.append(mk(cx(["yield", ["fut", 0]]), [[0, f], other], [], force_gen=True))
             out.append(mk(cx(["raise", e]), [other], [["tick"], ["done", 0, f], ["tick"]], force_gen=True))
+    # context variable across a resume from a PENDING future followed by a moment/None yield (seeded C37_3)
+    for wait in (["yield", ["fut", 0]], ["yield", ["list", [0, 1]]], ["yield", ["dict", [0]]], ["call", ["yield", ["fut", 0]]]):
+        for hop in (["yield", ["none"]], ["yield", ["moment"]], ["yield", ["fut", 1]], ["call", ["vget"]]):
+            progs = [
+                seq(["vget"], wait, ["vget"], ["vset", 2], ["vget"], hop, ["vget"]),
+                seq(["vset", 1], wait, ["vset", 2], hop, ["vget"], hop, ["vget"]),
+                seq(["withv", 4, seq(["vget"], wait, ["vget"])], ["vget"]),
+                seq(["withv", 4, seq(wait, ["withv", 5, seq(hop, ["vget"])], ["vget"])], hop, ["vget"]),
+                ["tryf", ["withv", 4, seq(wait, ["vset", 3], hop, ["raise", "K"])], ["vget"]],
+            ]
+            for p in progs:
+                out.append(mk(p, [], [["tick"], ["done", 0, ["res", 7]], ["tick"], ["done", 1, ["res", 8]]], force_gen=True))
+                out.append(mk(p, [[1, ["res", 8]]], [["done", 0, ["cancel"]]], force_gen=True))
     for _ in range(40):
         marks = [0]
 
@@ -545,10 +599,14 @@ def family_cases(rng):
                 if q < 0.4:
                     marks[0] += 1
                     return ["mark", marks[0]]
-                if q < 0.65:
+                if q < 0.6:
                     return ["raise", rng.choice(["K", "V", "C"])]
-                if q < 0.85:
+                if q < 0.75:
                     return ["ret", rng.choice([0, 5])]
+                if q < 0.85:
+                    return ["vget"]
+                if q < 0.95:
+                    return ["vset", rng.choice([1, 2])]
                 return ["skip"]
             if r < 0.55:
                 return ["seq", ny(d - 1), ny(d - 1)]
@@ -575,7 +633,10 @@ def gen_cases(rng, tier):
     for a in ATOMS:
         for b in ATOMS:
             for w in WRAPS:
-                small.append(w(a, b))
+                p = w(a, b)
+                if p[0] == "call" and (a[0] == "vset" or b[0] == "vset"):
+                    continue            # unbalanced V.set() inside a nested coroutine: outside the grammar
+                small.append(["seq", p, ["vget"]] if (a[0] in ("vset", "withv") or b[0] in ("vset", "withv")) else p)
     if tier == "thorough":
         # EXHAUSTIVE small scope: every 2-atom program over the 8 core atoms (5 combinators: 320 programs)
         # x every outcome pair in {result, exception, cancel}^2 x every completion order / timing
@@ -587,11 +648,11 @@ def gen_cases(rng, tier):
                     p = w(a, b)
                     for j, (pre, sched) in enumerate(scheds1):
                         out.append(mk(p, pre, sched, 200, force_gen=(j % 2 == 0)))
-        # larger scope (11 atoms, <= 3 ticks: 605 programs x 252 schedules), every 12th pairing
+        # larger scope (13 atoms, <= 3 ticks: about 840 programs x 252 schedules), every 16th pairing
         scheds = list(orders2(3))
         for k, p in enumerate(small):
             for j, (pre, sched) in enumerate(scheds):
-                if (k + j) % 12 == 0:
+                if (k + j) % 16 == 0:
                     out.append(mk(p, pre, sched, 200, force_gen=(j % 2 == 0)))
     else:
         scheds = list(orders2(2))
@@ -611,8 +672,7 @@ HAS_SEARCH_TIER = True
 
 
 def _size(s):
-    return 1 + sum(_size(x) for x in s[1:] if isinstance(x, list) and x and isinstance(x[0], str) and x[0] in
-                   ("skip", "mark", "yield", "call", "ret", "raise", "seq", "tryx", "tryf"))
+    return 1 + sum(_size(x) for x in s[1:] if isinstance(x, list) and x and isinstance(x[0], str) and x[0] in STMT_TAGS)
 
 
 def shrink(case):
@@ -627,6 +687,8 @@ def shrink(case):
         subs = [p[1], p[2]]
     elif k == "call":
         subs = [p[1]]
+    elif k == "withv":
+        subs = [p[2]]
     for s in subs:
         yield dict(case, prog=s)
     sc = case["sched"]
@@ -651,7 +713,7 @@ def nontrivial(case, o):
 def _kinds(s, acc):
     acc.add(s[0] if s[0] != "yield" else "yield-" + s[1][0])
     for x in s[1:]:
-        if isinstance(x, list) and x and isinstance(x[0], str) and x[0] in ("skip", "mark", "yield", "call", "ret", "raise", "seq", "tryx", "tryf"):
+        if isinstance(x, list) and x and isinstance(x[0], str) and x[0] in STMT_TAGS:
             _kinds(x, acc)
     return acc
 
@@ -686,7 +748,7 @@ def signature(case, o):
 TRUSTED_BASE = [
     "CPython generator/coroutine objects (send/throw, try/except/finally unwinding, PEP 380 delegation in `await`) are modelled by the resumption tree `denote`, not verified",
     "asyncio.Future / Task.__step / __wakeup / call_soon FIFO as summarised at the top of coq/C37/Model.v; the harness steps loop._ready one handle at a time (asyncio private attribute) so that the tie is hop-accurate",
-    "context-variable visibility is a harness-only check (not modelled)",
+    "the context variable is modelled as state of the body (one context for the coroutine's whole life); asyncio's copy of the context per registered callback is not an explicit part of the model, its consequence (every set/read/reset across every kind of resume) is compared with the real forms on every case",
 ]
 ASSUMPTIONS = [
     "programs come from the bounded grammar of coq/C37/Model.v (stmt); nested coroutines are native; the decorated function is a generator function (a plain function under gen.coroutine is outside the property)",
@@ -695,7 +757,7 @@ ASSUMPTIONS = [
 RULE = ("random programs (depth <= 4, <= 4 futures) x random schedules of completions (result / exception / cancel / already done / never) and single-callback ticks; "
         "context x failed/cancelled-await families and no-yield (fast path) bodies; "
         "thorough adds, EXHAUSTIVELY, every 2-atom program over 8 atoms x 5 combinators x every outcome pair x every completion order/timing around one tick (28800 cases) "
-        "and every 12th pairing of the larger scope (11 atoms, <= 3 ticks); "
+        "and every 16th pairing of the larger scope (13 atoms incl. V.set / V.reset, <= 3 ticks); "
         "distinct by (program, pre, schedule, fuel); non-trivial = program contains a yield, raise or try")
 LEVEL_TEXT = ("Machine-checked (Coq) proof that, for every program of the grammar and every schedule of future completions/cancellations and "
               "single loop callbacks, the gen.coroutine wrapper + Runner and an asyncio Task driving the same body reach, at quiescence, the same "
